@@ -199,7 +199,7 @@ class C11(Check):
                   'failure positions are few and swept: k in 0..2 for embedded applications and constructor lists); histories are sampled.')
     level_note = 'Trusted: the model routing tables and the dispatch model shared with C06.'
     forbidden_probes = ('failing-op-succeeded',)
-    required_probes = ('several-routes-added-at-a-negative-index', 'decorated-variant-of-an-endpoint-bound-elsewhere', 'route-with-own-middleware-bound-twice', 're-embedded-after-an-inner-application-was-dropped', 'application-reference-dropped-while-embedded', 'child-changed-after-subapplication-was-made', 'one-route-in-two-applications-with-equal-typed-stacks', 'sub-kth-fails-with-other-exception-type', 'strict-application', 'context-rendered-by-factory', 'embed-with-rebind-render', 'failed-add-unchanged', 'sub-kth-fails-unchanged', 'ctor-failed', 'route-bound-twice', 'embedded-then-child-changed',
+    required_probes = ('shipped-application-in-two-hosts', 'several-routes-added-at-a-negative-index', 'decorated-variant-of-an-endpoint-bound-elsewhere', 'route-with-own-middleware-bound-twice', 're-embedded-after-an-inner-application-was-dropped', 'application-reference-dropped-while-embedded', 'child-changed-after-subapplication-was-made', 'one-route-in-two-applications-with-equal-typed-stacks', 'sub-kth-fails-with-other-exception-type', 'strict-application', 'context-rendered-by-factory', 'embed-with-rebind-render', 'failed-add-unchanged', 'sub-kth-fails-unchanged', 'ctor-failed', 'route-bound-twice', 'embedded-then-child-changed',
                        'embed-depth-2', 'add-at-index')
 
     # ---- generation --------------------------------------------------------
@@ -349,7 +349,100 @@ class C11(Check):
                 + ([CycX()] if acfg.get('cyc_mw') else []))
 
     # ---- execution ---------------------------------------------------------
+    def extra_plans(self, tier, base_seed):
+        """The applications clastic ships (StaticApplication, MetaApplication) are Applications like any other: ONE instance
+        of each is embedded in two hosts that differ in their routes and in how they render errors; requests go to the
+        hosts in a seeded order.  Whatever a host answers is about THAT host."""
+        rng = Streams(base_seed)['shipped']
+        paths = ['/static/nope.txt', '/static/nope.txt', '/static/common.css', '/_meta/json/', '/_meta/json/', '/_meta/', '/nope', '/static/', '/own']
+        for k in range(40 if tier == 'quick' else 400):
+            n1 = rng.randint(0, 3)
+            n2 = n1 if rng.random() < 0.6 else rng.randint(0, 3)       # (often the same NUMBER of routes, never the same routes)
+            seq = [[rng.choice(['h1', 'h2', 'h2', 'alone']), rng.choice(paths)] for _ in range(rng.randint(3, 14))]
+            yield {'world': 'routing-table', 'seed': base_seed, 'config': {}, 'ops': [],
+                   'shipped': {'extra_routes': [n1, n2], 'seq': seq, 'meta_shared': rng.random() < 0.8, 'static_shared': rng.random() < 0.8}}
+
+    def execute_shipped(self, plan):
+        import json
+        import clastic.meta as cmeta
+        from clastic.errors import ErrorHandler
+        from clastic.meta import MetaApplication
+        from clastic.static import StaticApplication
+        from sim.core.seams import Seams, SimClock
+        from sim.core.hoststub import HostStub
+        res = RunResult()
+        sp = plan['shipped']
+        K = 'C11/shipped/'
+
+        def handler(tag):
+            class Stamping(ErrorHandler):
+                def render_error(self, request, _error, **kwargs):
+                    resp = ErrorHandler.render_error(self, request, _error)
+                    resp.headers['X-Err-Host'] = tag
+                    return resp
+            return Stamping()
+
+        stub = HostStub(clock=SimClock())
+        with Seams() as sm:
+            stub.install(sm, cmeta)
+            stub.set_faults({})
+            static = StaticApplication(cmeta._ASSET_PATH)
+            meta = MetaApplication()
+            hosts, own = {}, {}
+            for i, tag in enumerate(['h1', 'h2']):
+                routes = [('/own', (lambda tag=tag: Response('own:' + tag)))]
+                routes += [('/%s/r%d/<x>' % (tag, j), (lambda x, tag=tag: Response(tag))) for j in range(sp['extra_routes'][i])]
+                s_app = static if sp['static_shared'] or i == 0 else StaticApplication(cmeta._ASSET_PATH)
+                m_app = meta if sp['meta_shared'] or i == 0 else MetaApplication()
+                hosts[tag] = Application(routes + [('/static/', s_app), ('/_meta/', m_app)], error_handler=handler(tag))
+                own[tag] = [r.pattern for r in hosts[tag].routes]
+            # the embedded applications are also served on their own (each still is an application in its own right)
+            for step, (tag, path) in enumerate(sp['seq']):
+                if tag == 'alone':
+                    app, rel = (static, path[len('/static'):]) if path.startswith('/static/') else (meta, path[len('/_meta'):]) if path.startswith('/_meta/') else (None, None)
+                    if app is None:
+                        continue
+                    ex = call_app(app, make_environ('GET', rel, headers={'Accept': 'text/plain'}), validate=False)
+                    res.ev(step, 'alone', rel, ex.code)
+                    if ex.header('X-Err-Host') is not None:
+                        res.violate(K + 'own-error-rendered-by-a-host', 'step %d: %s served on its own answers %s with the error rendering of host %s\n%s'
+                                    % (step, type(app).__name__, ex.code, ex.header('X-Err-Host'), sp['seq'][:step + 1]), step)
+                        break
+                    continue
+                ex = call_app(hosts[tag], make_environ('GET', path, headers={'Accept': 'text/plain'}), validate=False)
+                res.ev(step, tag, path, ex.code, ex.header('X-Err-Host'))
+                res.nontrivial = True
+                res.sigs.add('shipped|%s|%s|%s' % (tag, path, ex.code))
+                res.probe('shipped-application-in-two-hosts')
+                ctx = 'step %d: GET %s on host %s after %s' % (step, path, tag, sp['seq'][:step])
+                if ex.escaped is not None:
+                    res.violate(K + 'exception-escaped:%s' % type(ex.escaped).__name__, ctx + ' -> %r' % (ex.escaped,), step)
+                    break
+                want = {'/static/nope.txt': 404, '/nope': 404, '/static/common.css': 200, '/_meta/': 200, '/_meta/json/': 200, '/own': 200}.get(path)
+                if want is not None and ex.code != want:
+                    res.violate(K + 'status-%s-not-%s' % (ex.code, want), ctx + ' -> %s' % ex.status, step)
+                    break
+                if ex.code >= 400 and ex.header('X-Err-Host') != tag:
+                    res.violate(K + 'error-rendered-by-another-host', ctx + ' -> the %s carries the error rendering of %r' % (ex.code, ex.header('X-Err-Host')), step)
+                    break
+                if path == '/own' and ex.body != ('own:' + tag).encode():
+                    res.violate(K + 'own-route-body', ctx + ' -> %r' % ex.body[:40], step)
+                    break
+                if path == '/_meta/json/':
+                    try:
+                        listed = [r['url_pattern'] for r in json.loads(ex.body.decode('utf8'))['app']['routes']]
+                    except Exception as e:
+                        res.violate(K + 'meta-json-unreadable', ctx + ' -> %r' % (e,), step)
+                        break
+                    if listed != own[tag]:
+                        res.violate(K + 'meta-lists-another-hosts-routes', ctx + ' -> listed %s, the host has %s' % (listed, own[tag]), step)
+                        break
+        res.steps = len(sp['seq'])
+        return res
+
     def execute(self, plan):
+        if plan.get('shipped'):
+            return self.execute_shipped(plan)
         res = RunResult()
         cfg = plan['config']
         pool = Pool(cfg)
